@@ -287,6 +287,13 @@ def oracle(case):
         return {'signature': 'routes-differ', 'detail': f'in-place and copy results differ on {diff[:4]}'}
     if r['source_after'] != r['before']:
         return {'signature': 'copy-route-touched-source', 'detail': ''}
+    if case['route'].startswith('copy:') and case['route'] != 'copy:skip':
+        # each image transfer strategy: every record data file arrives under its own name with its own bytes
+        src = {k: v for k, v in r['before'].items() if k.startswith('sensors/records_data/')}
+        dst = {k: v for k, v in r['copy'].items() if k.startswith('sensors/records_data/')}
+        if src != dst:
+            bad = sorted(set(src) ^ set(dst)) or [k for k in src if src[k] != dst[k]]
+            return {'signature': 'record-files-not-transferred', 'detail': f'{case["route"]}: {bad[:4]}'}
     # every data file byte-identical under its type
     p = case['params']
     d = case['d']
